@@ -765,7 +765,7 @@ pub fn run(run: &'static Run) {
     // one git process costs 4 ms on an idle machine but >50 ms when other checks run next to this one, so every case
     // uses as few processes as possible: 2-4 to build, 1 ls-files, 1 per rewritten variant
     let variants_small: Vec<String> = strs(&["t3:4", "t2:2"]);
-    let variants_entries: Vec<String> = if q { variants_small.clone() } else { strs(&["t2:4", "t4:2", "eoie:4", "t3:2", "ieot-only:4"]) };
+    let variants_entries: Vec<String> = if q { variants_small.clone() } else { strs(&["t2:4", "t4:2", "eoie:4", "ieot-only:2"]) };
 
     // ---- sub-check: entries ------------------------------------------------------------------------------------------
     let t12: &[&str] = &["F", "X", "L", "G", "N", "S", "V", "C123", "C23", "C12", "C13", "R"];
@@ -773,7 +773,7 @@ pub fn run(run: &'static Run) {
     let t4: &[&str] = &["F", "N", "S", "C123"];
     let t2: &[&str] = &["F", "C123"];
     let t1: &[&str] = &["C123"];
-    let by_size: [&[&str]; 5] = if q { [t12, t12, t2, t1, t1] } else { [t12, t12, t12, t7, t4] };
+    let by_size: [&[&str]; 5] = if q { [t12, t12, t2, t1, t1] } else { [t12, t12, t7, t4, t2] };
     run.rule(format!(
         "entries: treatments by worktree size 1..4 = {:?}; variants (index.threads layout:version) first-written + {:?}",
         &by_size[1..].iter().map(|t| t.join(",")).collect::<Vec<_>>(),
@@ -796,7 +796,7 @@ pub fn run(run: &'static Run) {
     run.rule(format!(
         "long-paths: subsets of size 1..{} of paths {{a, len 4094, 4095, 4096, 4097, zz}} x treatments {} (index-info, zero stat)",
         if q { 2 } else { 3 },
-        if q { "F,S for one path; F for two" } else { "F,S,C123" }
+        if q { "F,S for one path; F for two" } else { "F,S,C123 for <=2 paths; F for three" }
     ));
     if want("long-paths") {
         run.sub_with(
@@ -813,8 +813,10 @@ pub fn run(run: &'static Run) {
                         } else {
                             &["F"]
                         }
-                    } else {
+                    } else if s.len() <= 2 {
                         &["F", "S", "C123"]
+                    } else {
+                        &["F"]
                     };
                     enumerate::seqs(ts, s.len(), s.len(), |tt| {
                         emit(LongCase { entries: s.iter().zip(tt).map(|(n, t)| (n.to_string(), t.to_string())).collect(), layouts: variants_small.clone() })
@@ -827,10 +829,10 @@ pub fn run(run: &'static Run) {
 
     // ---- sub-check: untracked cache ---------------------------------------------------------------------------------
     run.rule(format!(
-        "untracked-cache: tracked worktrees <= {} paths (all F) x {} of untracked files x ignore source {}; directories aged so ctime != mtime; `git status` fills the cache",
+        "untracked-cache: tracked worktrees of 1..{} paths (all F) x {} of untracked files x ignore source {}; directories aged so ctime != mtime; `git status` fills the cache",
         if q { 1 } else { 2 },
-        if q { "subsets <= 1 of {u, d/e/u}" } else { "subsets <= 2 of {u, a/u, d/u.ign, d/e/u, n/u, n/m/u.glob}" },
-        if q { "{none, .gitignore, info/exclude + core.excludesFile}" } else { "{none, .gitignore, d/.gitignore, info/exclude, core.excludesFile, both}" }
+        if q { "subsets <= 1 of {u, d/e/u}" } else { "subsets <= 2 (1-path worktrees) / <= 1 (2-path) of {u, a/u, d/u.ign, d/e/u, n/u, n/m/u.glob}" },
+        if q { "{none, .gitignore, info/exclude + core.excludesFile}" } else { "{none, .gitignore, d/.gitignore, info/exclude, core.excludesFile, both} (2-path worktrees: none, d/.gitignore, both)" }
     ));
     if want("untracked-cache") {
         run.sub_with(
@@ -838,10 +840,19 @@ pub fn run(run: &'static Run) {
             vkit::Opts::default().chunk(32),
             |emit| {
                 let untracked_universe: &[&str] = if q { &["u", "d/e/u"] } else { &["u", "a/u", "d/u.ign", "d/e/u", "n/u", "n/m/u.glob"] };
-                let ignores: &[&str] = if q { &["none", "root", "info+global"] } else { &["none", "root", "sub", "info", "global", "info+global"] };
                 for wt in worktrees(if q { 1 } else { 2 }) {
+                    if wt.is_empty() {
+                        continue; // without an index file `git status` does not write one
+                    }
+                    let ignores: &[&str] = if q {
+                        &["none", "root", "info+global"]
+                    } else if wt.len() == 1 {
+                        &["none", "root", "sub", "info", "global", "info+global"]
+                    } else {
+                        &["none", "sub", "info+global"]
+                    };
                     let mut sets: Vec<Vec<&str>> = Vec::new();
-                    enumerate::subsets(untracked_universe, 0, if q { 1 } else { 2 }, |s| {
+                    enumerate::subsets(untracked_universe, 0, if q || wt.len() == 2 { 1 } else { 2 }, |s| {
                         if wt.contains(&"a") && s.contains(&"a/u") {
                             return;
                         }
@@ -864,8 +875,8 @@ pub fn run(run: &'static Run) {
     // ---- sub-check: tree cache + resolve undo after later index edits -------------------------------------------------
     let tree_t: &[&str] = if q { &["F", "N", "R"] } else { &["F", "N", "R", "G"] };
     run.rule(format!(
-        "tree-cache: worktrees <= {} paths x treatments {} x post-ops (write-tree; then modify / remove {}; add new path {})",
-        if q { 2 } else { 3 },
+        "tree-cache: worktrees <= {} paths x treatments {} (2-path worktrees: F,N,R) x post-ops (write-tree; then modify / remove {}; add new path {})",
+        2,
         tree_t.join(","),
         if q { "the first path (2-path worktrees: treatments F,R and modify only)" } else { "each path" },
         if q { "d/n" } else { "z, a/n, d/n" }
@@ -875,11 +886,11 @@ pub fn run(run: &'static Run) {
             "tree-cache",
             vkit::Opts::default().chunk(32),
             |emit| {
-                for wt in worktrees(if q { 2 } else { 3 }) {
+                for wt in worktrees(2) {
                     if wt.is_empty() {
                         continue;
                     }
-                    let ts: &[&str] = if q && wt.len() == 2 { &["F", "R"] } else { tree_t };
+                    let ts: &[&str] = if wt.len() == 2 { if q { &["F", "R"] } else { &["F", "N", "R"] } } else { tree_t };
                     assignments(&wt, ts, |paths| {
                         let mut posts = Vec::new();
                         if !(q && wt.len() == 2) {
@@ -958,7 +969,7 @@ pub fn run(run: &'static Run) {
     run.rule(format!(
         "sparse-index: worktrees with {} x treatments {} committed, `sparse-checkout set --cone --sparse-index` with cone in {{(none), a, d, d/e, a+d}}",
         if q { ">= 3 paths" } else { ">= 1 path" },
-        if q { "F" } else { "F,X" }
+        if q { "F" } else { "F,X (F only for >= 3 paths)" }
     ));
     if want("sparse-index") {
         run.sub_with(
@@ -970,7 +981,7 @@ pub fn run(run: &'static Run) {
                     if wt.len() < if q { 3 } else { 1 } {
                         continue;
                     }
-                    let ts: &[&str] = if q { &["F"] } else { &["F", "X"] };
+                    let ts: &[&str] = if q || wt.len() >= 3 { &["F"] } else { &["F", "X"] };
                     assignments(&wt, ts, |paths| {
                         for cone in cones {
                             if cone.contains(&"a") && wt.contains(&"a") {
